@@ -951,6 +951,10 @@ func (g *Gen) instr(in ssa.Instruction, st *State) {
 						cur := st.heap["alloc"]
 						w.assume(fmt.Sprintf("(not (select %s %s))", cur.S, sr.S))
 						st.heap["alloc"] = T(fmt.Sprintf("(store %s %s true)", cur.S, sr.S), cur.Sort)
+						// the interior object is zero-initialised with its parent (it is addressed through its own heaps)
+						ft := stt.Field(i).Type()
+						registerStruct(ft)
+						w.storeAddr(Addr{kind: "heap", key: "obj:" + types.TypeString(ft, nil), ref: sr, typ: ft}, w.zero(ft), st)
 						interior(stt.Field(i).Type(), sr, depth+1)
 					}
 				}
@@ -2647,6 +2651,12 @@ func (g *Gen) checkFrame(ret *ssa.Return, st *State) {
 			}
 			sel = selName
 			g.addObNoAssume("frame", name, pos, st, fmt.Sprintf("(forall ((s Slice) (j Int)) (=> (select %s (sbase s)) (= (%s %s s j) (%s %s s j))))", alloc0.S, sel, h1.S, sel, h0.S))
+		case strings.HasPrefix(k, "ptr:"):
+			if matched {
+				continue
+			}
+			// cells of escaping locals live in these heaps too: only the cells that existed at entry are in the frame
+			g.addObNoAssume("frame", name, pos, st, fmt.Sprintf("(forall ((r Int)) (=> (select %s r) (= (select %s r) (select %s r))))", alloc0.S, h1.S, h0.S))
 		default:
 			if matched {
 				continue
